@@ -31,6 +31,20 @@ Proof. unfold ArExt. rewrite app_nil_r. auto. Qed.
 Lemma ArExt_trans A A1 A2 X Y : ArExt A A1 X -> ArExt A1 A2 Y -> ArExt A A2 (X ++ Y).
 Proof. intros (a1 & a2 & a3 & a4 & a5) (b1 & b2 & b3 & b4 & b5). unfold ArExt. rewrite b5, a5, app_assoc. repeat split; congruence. Qed.
 
+(* order-preserving omission *)
+Inductive Sub {T} : list T -> list T -> Prop :=
+| Sub_nil : Sub [] []
+| Sub_keep x a b : Sub a b -> Sub (x :: a) (x :: b)
+| Sub_drop x a b : Sub a b -> Sub a (x :: b).
+Lemma Sub_refl {T} (l : list T) : Sub l l.
+Proof. induction l; constructor; auto. Qed.
+Lemma Sub_nil_l {T} (l : list T) : Sub [] l.
+Proof. induction l; constructor; auto. Qed.
+Lemma Sub_app {T} (a b c d : list T) : Sub a b -> Sub c d -> Sub (a ++ c) (b ++ d).
+Proof. induction 1; intros Hcd; simpl; auto; constructor; auto. Qed.
+Lemma Sub_prefix {T} (y z : list T) : Sub y (y ++ z).
+Proof. rewrite <- (app_nil_r y) at 1. apply Sub_app; [apply Sub_refl|apply Sub_nil_l]. Qed.
+
 Section Glue.
 Variable req : N -> N -> bytes -> bytes -> bool.
 Variable apex : name.
@@ -118,7 +132,7 @@ Definition addr_rrs (owner : zname) (sbc : bool) : list arr :=
 Definition RSA (d : dstate) (g : gn) (A : amsg) (X : list arr) (r : res (wierr * writer) writer) : Prop :=
   match r with
   | Ok w' => exists d' g' A', StA d' g' A' /\ d_w d' = w' /\ Frame d g d' g' /\ ArExt A A' X
-  | Err (_, w') => exists d' g' A' Y, StA d' g' A' /\ d_w d' = w' /\ Frame d g d' g' /\ ArExt A A' Y
+  | Err (_, w') => exists d' g' A' Y Z, StA d' g' A' /\ d_w d' = w' /\ Frame d g d' g' /\ ArExt A A' Y /\ X = Y ++ Z
   | Panic => False
   end.
 
@@ -164,8 +178,8 @@ Proof.
     - destruct Y as (d2 & g2 & HS2 & Hw2 & Hr2 & Hg2 & (Gq & _)). eexists d2, g2, _. split; [exact HS2|]. split; [exact Hw2|].
       split; [eapply Frame_trans; [exact F1|]; split; [exact Gq|]; split; apply prefix_eq; auto|].
       rewrite Hm1. eapply ArExt_trans; [exact E1|apply add_rrs_ext].
-    - destruct Y as (d2 & g2 & HS2 & Hw2 & Hr2 & Hg2 & (Gq & _)). exists d2, g2, A1, X. split; [exact HS2|]. split; [exact Hw2|].
-      split; [eapply Frame_trans; [exact F1|]; split; [exact Gq|]; split; apply prefix_eq; auto|exact E1]. }
+    - destruct Y as (d2 & g2 & HS2 & Hw2 & Hr2 & Hg2 & (Gq & _)). exists d2, g2, A1, X. eexists. split; [exact HS2|]. split; [exact Hw2|].
+      split; [eapply Frame_trans; [exact F1|]; split; [exact Gq|]; split; apply prefix_eq; auto|]. split; [exact E1|reflexivity]. }
   destruct a as [[ta ra]|].
   - destruct (Ga _ eq_refl) as [GaP Gane]. cbn [snd] in *. destruct (Pz_split _ _ _ GaP) as [GaG _].
     pose proof (StA_add_rrset d g A h hs owner ZoneConsts.TYPE_A (z_class z) ta ra HS Hh Hown GaG eq_refl zc16' Hc) as Y.
@@ -177,8 +191,8 @@ Proof.
       * apply add_rrs_ext.
       * reflexivity.
       * cbn [hs_contract]. intros m Hm'. rewrite Go in Hm'. destruct ra; [congruence|]. inversion Hm'; subst. apply name_eq_refl.
-    + destruct Y as (d1 & g1 & HS1 & Hw1 & Hr1 & Hg1 & (Gq & _)). exists d1, g1, A, []. split; [exact HS1|]. split; [exact Hw1|].
-      split; [split; [exact Gq|]; split; apply prefix_eq; auto|apply ArExt_refl].
+    + destruct Y as (d1 & g1 & HS1 & Hw1 & Hr1 & Hg1 & (Gq & _)). exists d1, g1, A, []. eexists. split; [exact HS1|]. split; [exact Hw1|].
+      split; [split; [exact Gq|]; split; apply prefix_eq; auto|]. split; [apply ArExt_refl|reflexivity].
   - apply (Haaaa d g A [] h hs HS Hm (Frame_refl d g) (ArExt_refl A) Hh Hc).
 Qed.
 
@@ -213,27 +227,28 @@ Qed.
 (* ---- the other name servers: whatever fits *)
 Lemma optional_loop_A r v rds : forall l d g A, StA d g A -> am_mode A = Standard -> vec_issued d g r v [CtCompressible] rds ->
   (forall i nm, In (i, nm) l -> good_name nm /\ nth_error (rds_names [CtCompressible] rds) i = Some nm) ->
-  QSA d g A (fun A' => exists X, ArExt A A' X) (optional_loop w_iface z l v (d_w d)).
+  QSA d g A (fun A' => exists X, ArExt A A' X /\ Sub X (flat_map (fun t => addr_rrs (snd t) true) l)) (optional_loop w_iface z l v (d_w d)).
 Proof.
-  induction l as [|[idx n] l IH]; intros d g A HS Hm Hv Hl; cbn [optional_loop].
-  - exists d, g, A. split; [exact HS|]. split; [reflexivity|]. split; [apply Frame_refl|]. split; [exact Hm|]. exists []. apply ArExt_refl.
+  induction l as [|[idx n] l IH]; intros d g A HS Hm Hv Hl; cbn [optional_loop flat_map].
+  - exists d, g, A. split; [exact HS|]. split; [reflexivity|]. split; [apply Frame_refl|]. split; [exact Hm|]. exists []. split; [apply ArExt_refl|constructor].
   - destruct (Hl idx n (or_introl eq_refl)) as [Gn Hn].
     destruct (vec_hint d g r v _ _ idx n Hv (or_intror Hn)) as (hs & Hh & Hc).
     pose proof (addrs_A d g A n _ hs true HS Hm Gn Hh Hc) as Q.
     assert (Hl' : forall i nm, In (i, nm) l -> good_name nm /\ nth_error (rds_names [CtCompressible] rds) i = Some nm)
       by (intros i nm Hin; apply Hl; right; exact Hin).
-    assert (Cont : forall d1 g1 A1 X, StA d1 g1 A1 -> Frame d g d1 g1 -> ArExt A A1 X ->
-              QSA d g A (fun A' => exists X, ArExt A A' X) (optional_loop w_iface z l v (d_w d1))).
-    { intros d1 g1 A1 X HS1 F1 E1.
+    assert (Cont : forall d1 g1 A1 X, StA d1 g1 A1 -> Frame d g d1 g1 -> ArExt A A1 X -> Sub X (addr_rrs n true) ->
+              QSA d g A (fun A' => exists X, ArExt A A' X /\ Sub X (addr_rrs n true ++ flat_map (fun t => addr_rrs (snd t) true) l))
+                  (optional_loop w_iface z l v (d_w d1))).
+    { intros d1 g1 A1 X HS1 F1 E1 HsubX.
       assert (Hm1 : am_mode A1 = Standard) by (destruct E1 as (Y & _); congruence).
       pose proof (IH d1 g1 A1 HS1 Hm1 (vec_issued_frame _ _ _ _ _ _ _ _ F1 Hv) Hl') as Q2.
       destruct (optional_loop w_iface z l v (d_w d1)) as [[u w2]|[e w2]|]; cbn [QSA] in Q2 |- *; auto.
-      destruct Q2 as (d2 & g2 & A2 & HS2 & Hw2 & F2 & Hm2 & (Y & E2)). exists d2, g2, A2. split; [exact HS2|]. split; [exact Hw2|].
-      split; [eapply Frame_trans; eauto|]. split; [exact Hm2|]. exists (X ++ Y). eapply ArExt_trans; eauto. }
+      destruct Q2 as (d2 & g2 & A2 & HS2 & Hw2 & F2 & Hm2 & (Y & E2 & HsubY)). exists d2, g2, A2. split; [exact HS2|]. split; [exact Hw2|].
+      split; [eapply Frame_trans; eauto|]. split; [exact Hm2|]. exists (X ++ Y). split; [eapply ArExt_trans; eauto|apply Sub_app; auto]. }
     destruct (add_additional_addresses w_iface z n (hint_from_vec (Some v) idx) true (d_w d)) as [w1|[[|] w1]|];
       cbn [allow_truncation RSA] in Q |- *; auto.
-    + destruct Q as (d1 & g1 & A1 & HS1 & Hw1 & F1 & E1). subst w1. eapply Cont; eauto.
-    + destruct Q as (d1 & g1 & A1 & Y & HS1 & Hw1 & F1 & E1). subst w1. eapply Cont; eauto.
+    + destruct Q as (d1 & g1 & A1 & HS1 & Hw1 & F1 & E1). subst w1. cbn [snd]. eapply Cont; eauto. apply Sub_refl.
+    + destruct Q as (d1 & g1 & A1 & Y & Z & HS1 & Hw1 & F1 & E1 & EX). subst w1. cbn [snd]. eapply Cont; eauto. rewrite EX. apply Sub_prefix.
     + exact I.
 Qed.
 
@@ -274,14 +289,20 @@ Definition glue_rrs (child : zname) (rds : list bytes) : list arr :=
   | Ok (glues, _) => flat_map (fun t => addr_rrs (snd t) true) glues
   | _ => []
   end.
+(* the address records of the OTHER name servers: candidates, added as far as they fit *)
+Definition opt_rrs (child : zname) (rds : list bytes) : list arr :=
+  match referral_names child rds 0 with
+  | Ok (_, adds) => flat_map (fun t => addr_rrs (snd t) true) adds
+  | _ => []
+  end.
 
 Lemma referral_A child ns d g A : StA d g A -> am_mode A = Standard -> good_name child -> Forall (Pz0 2%N) (snd ns) ->
   QSA d g A (fun A' => am_an A' = am_an A /\
                        am_ns A' = am_ns A ++ map (mkAR child Standard ZoneConsts.TYPE_NS (z_class z) (ttl_rfc (fst ns))) (snd ns) /\
-                       exists X, am_ar A' = am_ar A ++ glue_rrs child (snd ns) ++ X)
+                       exists X, am_ar A' = am_ar A ++ glue_rrs child (snd ns) ++ X /\ Sub X (opt_rrs child (snd ns)))
       (do_referral w_iface z child ns (d_w d)).
 Proof.
-  intros HS Hm Gc HrdsP. destruct (Pz_split _ _ _ HrdsP) as [Hrds _]. unfold do_referral, glue_rrs.
+  intros HS Hm Gc HrdsP. destruct (Pz_split _ _ _ HrdsP) as [Hrds _]. unfold do_referral, glue_rrs, opt_rrs.
   pose proof (StA_add_ns d g A child (fst ns) (snd ns) HS Gc Hrds) as X.
   destruct (wi_add_rrset w_iface SNs QhNone child ZoneConsts.TYPE_NS (z_class z) (fst ns) (snd ns) true (d_w d)) as [[v w1]|[e w1]|];
     cbn [lift_addv QSA]; auto.
@@ -300,11 +321,11 @@ Proof.
   destruct Q as (d2 & g2 & A2 & HS2 & Hw2 & F2 & Hm2 & E2). subst w2.
   pose proof (optional_loop_A (length (d_regs d)) v (snd ns) adds d2 g2 A2 HS2 Hm2 (vec_issued_frame _ _ _ _ _ _ _ _ F2 Hv) Ha) as Q3.
   destruct (optional_loop w_iface z adds v (d_w d2)) as [[u3 w3]|[e w3]|]; cbn [QSA] in Q3 |- *; auto.
-  destruct Q3 as (d3 & g3 & A3 & HS3 & Hw3 & F3 & Hm3 & (Y & E3)). exists d3, g3, A3. split; [exact HS3|]. split; [exact Hw3|].
+  destruct Q3 as (d3 & g3 & A3 & HS3 & Hw3 & F3 & Hm3 & (Y & E3 & HsubY)). exists d3, g3, A3. split; [exact HS3|]. split; [exact Hw3|].
   split; [eapply Frame_trans; [exact F1|eapply Frame_trans; eauto]|]. split; [exact Hm3|].
   destruct E2 as (_ & _ & a3 & a4 & a5). destruct E3 as (_ & _ & b3 & b4 & b5).
   split; [rewrite b3, a3; reflexivity|]. split; [rewrite b4, a4; reflexivity|].
-  exists Y. rewrite b5, a5. unfold A1. cbn [add_rrs am_ar]. rewrite <- app_assoc. reflexivity.
+  exists Y. split; [|exact HsubY]. rewrite b5, a5. unfold A1. cbn [add_rrs am_ar]. rewrite <- app_assoc. reflexivity.
 Qed.
 
 End Glue.
@@ -323,7 +344,13 @@ Hypothesis Hclass : (cls < 65536)%N.
 Hypothesis HR : Forall (fun r => Pz (fun _ _ => True) (r_type r) (r_rdata r)) R.
 Variable negttl : N -> N -> N.
 
-Definition Pany (o : wop) : Prop := True.
+Notation Pany := Pop_t.
+
+Lemma tsig_t_replay : forall ops outs H, Forall Pop_t ops -> h_tsig H = None -> h_tsig (hreplay H ops outs) = None.
+Proof.
+  induction ops as [|o ops IH]; intros outs H Hf G; [exact G|].
+  destruct outs as [|r outs]; [exact G|]. inversion Hf; subst. cbn [hreplay]. apply IH; auto. apply tsig_t_step; auto.
+Qed.
 
 Lemma prepared_mode tcp id rd qname qtype qclass edns limit :
   let ops := pre_ops tcp id rd qname qtype qclass edns limit in
@@ -343,11 +370,13 @@ Theorem respond_referral_glue buf tcp id rd qname qtype qclass edns limit child 
     match do_referral w_iface z child ns w with
     | Ok _ =>
       (* the answering logic succeeded: the response is neither truncated nor a SERVFAIL *)
-      exists ds_ns ds_glue ds_other,
+      exists ds_ns ds_glue X ds_opt ds_pseudo,
         m_ns m = ds_ns /\
         Forall2 (rr_rel xparts) (map (mkAR child Standard ZoneConsts.TYPE_NS (z_class z) (ttl_rfc (fst ns))) (snd ns)) ds_ns /\
-        m_ar m = ds_glue ++ ds_other /\
-        Forall2 (rr_rel xparts) (glue_rrs z child (snd ns)) ds_glue
+        m_ar m = ds_glue ++ ds_opt ++ ds_pseudo /\
+        Forall2 (rr_rel xparts) (glue_rrs z child (snd ns)) ds_glue /\
+        Forall2 (rr_rel xparts) X ds_opt /\ Sub X (opt_rrs z child (snd ns)) /\
+        forallb is_pseudo ds_pseudo = true
     | _ => True
     end.
 Proof.
@@ -379,7 +408,7 @@ Proof.
   pose proof (referral_A reqf apex cls R z Hinv HR Hclass Pany (fun _ _ _ _ _ _ _ _ => I) (mkD w0 []) g0 am0
                 child ns (mkD w []) (g_prepared qname) Ap Sp Pm (good_name_suffix _ _ Gs Gq) GP) as Q.
   cbn [d_w] in Q. rewrite Edr in Q. cbn [QSA] in Q.
-  destruct Q as (d3 & g3 & A3 & (ops & outs & L & Rall & Hi & HA) & Hw3 & _ & Hm3 & Han & Hns & (X & Har)).
+  destruct Q as (d3 & g3 & A3 & (ops & outs & L & Rall & Hi & HA) & Hw3 & _ & Hm3 & Han & Hns & (X & Har & HsubX)).
   destruct (Reach_run Pany _ _ _ _ _ _ Rall) as (Hrun & Hrc & F1 & F2 & F3 & F4 & Hlen).
   destruct (MsgWriterStepP.finish_ok (fun x => x) d3 g3 L Hi) as (wF & LF & EF & _).
   exists (w_cursor wF), (w_buf wF).
@@ -395,8 +424,17 @@ Proof.
   split; [exact Em|].
   rewrite Hns, Pns in Hdns. cbn [app] in Hdns.
   rewrite Har, Par in Hdar. cbn [app] in Hdar. rewrite <- !app_assoc in Hdar.
-  apply Forall2_app_inv_l in Hdar as (dg & dx & Hg' & _ & Eq).
-  exists (m_ns m), dg, dx. split; [reflexivity|]. split; [exact Hdns|]. split; [exact Eq|exact Hg'].
+  apply Forall2_app_inv_l in Hdar as (dg & dx & Hg' & Hrest & Eq).
+  apply Forall2_app_inv_l in Hrest as (dop & dps & Hop & Hps & Eq2).
+  exists (m_ns m), dg, X, dop, dps. split; [reflexivity|]. split; [exact Hdns|]. split; [rewrite Eq, Eq2; reflexivity|].
+  split; [exact Hg'|]. split; [exact Hop|]. split; [exact HsubX|].
+  (* the pseudo-records: no TSIG was ever set, so at most the OPT *)
+  assert (Hts : h_tsig (hreplay ah0 ops outs) = None) by (apply tsig_t_replay; [exact F4|reflexivity]).
+  unfold pseudo_of in Hps. rewrite Hts, app_nil_r in Hps.
+  destruct (h_edns _) as [[uu up]|].
+  - inversion Hps as [|a dd l l' Hd Hrest']; subst. inversion Hrest'; subst.
+    destruct (opt_decoded _ _ _ _ Hd) as (_ & Ho & _). cbn [forallb]. unfold is_pseudo. rewrite Ho. reflexivity.
+  - inversion Hps; subst. reflexivity.
 Qed.
 
 End GlueTop.
@@ -416,11 +454,13 @@ Theorem respond_referral_glue_build reqf apex cls wide recs z negttl buf tcp id 
     decode_msg (firstn len b) = Some m /\
     match do_referral w_iface z child ns w with
     | Ok _ =>
-      exists ds_ns ds_glue ds_other,
+      exists ds_ns ds_glue X ds_opt ds_pseudo,
         m_ns m = ds_ns /\
         Forall2 (rr_rel xparts) (map (mkAR child Standard ZoneConsts.TYPE_NS (z_class z) (ttl_rfc (fst ns))) (snd ns)) ds_ns /\
-        m_ar m = ds_glue ++ ds_other /\
-        Forall2 (rr_rel xparts) (glue_rrs z child (snd ns)) ds_glue
+        m_ar m = ds_glue ++ ds_opt ++ ds_pseudo /\
+        Forall2 (rr_rel xparts) (glue_rrs z child (snd ns)) ds_glue /\
+        Forall2 (rr_rel xparts) X ds_opt /\ Sub X (opt_rrs z child (snd ns)) /\
+        forallb is_pseudo ds_pseudo = true
     | _ => True
     end.
 Proof.
